@@ -575,9 +575,9 @@ func runCheck(id string, o checkOpts) int {
 	ev := Evidence{PropertyID: id, Tier: o.tier, Seed: seed, Level: "model_checking", WallS: wall, Violations: len(confirmed),
 		Assumptions: append([]string{
 			"go/ssa (x/tools v0.50.0) represents the source faithfully; the engine's interpretation of SSA is validated by native replay of every model",
-			"strings are ASCII with concrete length and symbolic bytes; only the lengths/shapes listed under bounds are covered",
-			"intrinsics (regexp matcher, fmt, selected strings/strconv/unicode functions) model the standard library; see natives_used",
-			"z3 4.8.12 decides the Int/Bool queries correctly",
+			"strings have concrete length and symbolic bytes (ASCII unless a template names bytes >= 0x80); only the lengths/shapes listed under bounds are covered",
+			"intrinsics (regexp matcher, fmt, selected strings/strconv/unicode/time/sync functions) model the standard library and are validated by `vx selfcheck`; see natives_used",
+			"the solver named under coverage.solver (z3 5.1.0 as z3-new by default; cvc5 when it answers unknown, and as a cross-check in the thorough tier) decides the Int/Bool queries correctly",
 		}, cd.Assume...),
 		Coverage: map[string]interface{}{
 			"states":                           tot.paths + tot.mergedPaths,
